@@ -238,6 +238,20 @@ func (w *World) gaugesOracle(prop string, converse bool) []Violation {
 					sig := "zero-gauges-but-store-stale:" + class + "|store|any"
 					if tr := w.gaugeTrigger(exp, got); tr != "any" {
 						sig = "zero-gauges-but-store-stale|store|" + tr
+						// the known finding K1 is about a state that the next merger / persister round repairs; when
+						// the difference survives a full drain it is something else
+						if !w.inGate {
+							w.drain(4)
+							if ss2, _ := w.store.Snapshot(); ss2 != nil && w.infra == "" {
+								got2 := DumpSnapshot(ss2, w.probes)
+								ss2.Close()
+								if class2, detail2 := DiffDumps(exp, got2, "Store.Snapshot"); class2 != "" {
+									sig = "zero-gauges-and-store-stale-after-drain:" + class2 + "|store|any"
+									detail = "even after merger and persister have run until idle: " + detail2
+									got = got2
+								}
+							}
+						}
 					}
 					out = append(out, Violation{Prop: prop, Sig: sig,
 						Msg: fmt.Sprintf("CurDirtyOps/Bytes/Segments are all zero but the store's own snapshot differs from the reference: %s\n  expected %s\n  observed %s\n  in gate=%v sections=%v", detail, exp, got, w.inGate, w.Heights())})
@@ -253,22 +267,7 @@ func (w *World) gaugesOracle(prop string, converse bool) []Violation {
 	}
 	if converse && !zero && len(out) == 0 {
 		// with updates succeeding, a few alternations of merger and persister must bring the gauges to zero
-		for i := 0; i < 4; i++ {
-			if w.s.Enabled(w.merger) {
-				w.run(w.merger)
-			}
-			if w.inGate {
-				w.gateMode, w.gateFlag = 1, true
-			}
-			if w.s.Enabled(w.persister) {
-				w.run(w.persister)
-			}
-			if w.inGate {
-				w.gateMode, w.gateFlag = 1, true
-				w.run(w.persister)
-			}
-			w.settle()
-		}
+		w.drain(4)
 		if w.infra == "" && !moss.VerifCollLocked(w.coll) {
 			st2, _ := w.coll.Stats()
 			if !(st2.CurDirtyOps == 0 && st2.CurDirtyBytes == 0 && st2.CurDirtySegments == 0) {
@@ -278,6 +277,26 @@ func (w *World) gaugesOracle(prop string, converse bool) []Violation {
 		}
 	}
 	return out
+}
+
+// drain lets merger and persister alternate n times with every update succeeding.
+func (w *World) drain(n int) {
+	for i := 0; i < n; i++ {
+		if w.s.Enabled(w.merger) {
+			w.run(w.merger)
+		}
+		if w.inGate {
+			w.gateMode, w.gateFlag = 1, true
+		}
+		if w.s.Enabled(w.persister) {
+			w.run(w.persister)
+		}
+		if w.inGate {
+			w.gateMode, w.gateFlag = 1, true
+			w.run(w.persister)
+		}
+		w.settle()
+	}
 }
 
 // opsCount is the number of key operations of a batch, recursively.
